@@ -4,7 +4,7 @@
    and returns both answers.  All request-specific logic is here in Coq, so that
    the OCaml side is a 100-line parser/printer. *)
 From Coq Require Import List NArith Bool.
-From Traph Require Import Bytes Consts Helpers Rules Tst Traph Spec Codec.
+From Traph Require Import Bytes Consts Helpers Rules Tst Traph Spec Codec Storage Traphw.
 Import ListNotations.
 Open Scope N_scope.
 
@@ -50,6 +50,24 @@ Definition g_pairs (a : ans) : list (bytes * bytes) :=
 Definition g_batch (a : ans) : list (bytes * list bytes) :=
   map (fun x => match g_list x with [p; q] => (g_bytes p, g_blist q) | _ => ([], []) end) (g_list a).
 Definition arg (n : nat) (args : list ans) : ans := nth n args ANone.
+
+(* ---- storage machines (C15) ------------------------------------------------------ *)
+Definition g_sop (a : ans) : sop :=
+  match g_list a with
+  | [ANum 0; ANum b] => SRead b
+  | [ANum 1] => SReadNext
+  | [ANum 2; ABytes d; ANum b] => SWrite d b
+  | [ANum 3; ABytes d] => SAppend d
+  | [ANum 4] => SLen
+  | _ => SCount
+  end.
+Definition a_sres (r : sres) : ans :=
+  match r with
+  | RData (Some b) => ABytes b
+  | RData None => ANone
+  | RBlock b => AList [ANum b]
+  | RLen n => ANum n
+  end.
 
 (* ---- answers of the abstract side ---------------------------------------------- *)
 Definition a_tm (m : trie_metrics) : ans :=
@@ -172,5 +190,40 @@ Definition exec (op : N) (args : list ans) (st : dstate) : dstate * ans :=
   | 63 => (st, both (a_opt ABytes (apply_rule (g_kind A0) (g_bytes A1))) ANone)
   | 64 => (st, both (a_list ABytes (stem_head (g_bytes A0) :: stem_tail_chunks (g_bytes A0))) ANone)
   | 65 => (st, both (ABytes (lru_dirname (g_bytes A0))) ANone)
+  | 70 =>
+      let ops := map g_sop (g_list A1) in
+      let '(fs, fr) := file_run (g_num A0) (mkF [] 0) ops in
+      let '(ms, mr) := mem_run (g_num A0) (mkM [] 0) ops in
+      (st, both (AList [a_list a_sres fr; ABytes (f_data fs)]) (AList [a_list a_sres mr; ABytes (m_data ms)]))
   | _ => (st, ACrash)
   end.
+
+(* ---- write traces (C18): opcode 100 + k runs request k and also returns its program-ordered writes ---- *)
+Definition writes_of (op : N) (args : list ans) (m : traph) : list Traphw.wr :=
+  let A0 := arg 0 args in let A1 := arg 1 args in let A2 := arg 2 args in
+  match op with
+  | 1 => [THdr 0; LHdr] ++ install_rules_w (g_rules A1) (mkT Lf 1 0 [] [] (g_kind A0))
+  | 2 => add_page_int_w (g_bytes A0) (g_bool A1) m
+  | 3 => add_pages_w (g_blist A0) (g_bool A1) m
+  | 4 => add_links_w (g_pairs A0) m
+  | 5 => batch_crawl_w (g_batch A0) m
+  | 6 => create_webentity_w (g_blist A0) m
+  | 7 => delete_webentity_w (g_num A0) (g_blist A1) m
+  | 8 => add_prefix_w (g_bytes A0) (g_num A1) m
+  | 9 => remove_prefix_w (g_bytes A0) (g_num A1) m
+  | 10 => move_prefix_w (g_bytes A0) (g_num A1) (g_num A2) m
+  | 11 => add_rule_w (g_bytes A0) (g_kind A1) m
+  | 12 => remove_rule_w (g_bytes A0) m
+  | 14 => clear_w (match A0 with ANum _ => Some (g_kind A0) | _ => None end)
+                  (match A1 with AList _ => Some (g_rules A1) | _ => None end) m
+  | _ => []
+  end.
+Definition a_wr (w : Traphw.wr) : ans :=
+  AList [a_bool (wr_file w); a_opt ANum (wr_offset w); ABytes (wr_bytes w)].
+Definition exec_traced (op : N) (args : list ans) (st : dstate) : dstate * ans :=
+  if 100 <? op then
+    let k := op - 100 in
+    let tr := writes_of k args (d_m st) in
+    let '(st', a) := exec k args st in
+    (st', AList [a; a_list a_wr tr])
+  else exec op args st.
